@@ -89,6 +89,9 @@ func checkC08(c caseC08) (sig, msg string) {
 	if got.Panic != nil {
 		return "panic", fmt.Sprintf("%s: panic %v", desc, got.Panic.Value)
 	}
+	if got.PacketWithError {
+		return "packet-together-with-error", fmt.Sprintf("%s: ReadPacket returned an error (%v) together with a packet value that is not nil", desc, got.Err)
+	}
 	if got.OK {
 		return "packet-from-truncated-stream", fmt.Sprintf("%s: ReadPacket returned a packet (%s) although only a proper prefix of the frame was delivered", desc, typeName(uint8(got.Type)))
 	}
